@@ -1207,6 +1207,17 @@ def translate_checks():
     raise TranslateError("parser/mod.rs: fn assert_new_method_defined not found")
 
 
+def translate_reply_on():
+    """parser/attributes/msg.rs: `ReplyOn::new` (the three outcome names) and `ReplyOn::excludes` (when two handlers of one
+    reply name cannot coexist)."""
+    def setup(t):
+        t.interior = True
+        t.symbolic_methods = {"span"}
+    FOREIGN["Error::new"] = "Error::new"
+    return translate_methods("parser/attributes/msg.rs", {"ReplyOn": ["new", "excludes"]}, setup=setup,
+                             kv=fetch_ast(os.path.join(common.REPO, "sylvia-derive", "src", "parser", "attributes", "msg.rs")))
+
+
 def translate_fold():
     """sylvia-derive/src/fold.rs: `StripInput` - what is removed from the user's item before it is re-emitted."""
     def setup(t):
@@ -1426,7 +1437,7 @@ def generate():
     except (TranslateError, KeyError, IndexError, ValueError, TypeError, AttributeError) as e:
         parsefns, _ = [], errors.append("macro logic (attribute parser: parser/attributes/mod.rs): %s" % e)
     try:
-        checkfns = translate_checks()
+        checkfns = translate_checks() + translate_reply_on()
     except (TranslateError, KeyError, IndexError, ValueError, TypeError, AttributeError) as e:
         checkfns, _ = [], errors.append("macro logic (checks: parser/mod.rs): %s" % e)
     try:
@@ -1505,7 +1516,7 @@ def generate():
             "   appended to the ghost field __diags) *)",
             "Definition attrparse_fns : program :=", prog(parsefns)]),
         "GenImpCheck.v": gen_file("checks of the contract macro (parser/mod.rs)", [
-            "(* assert_new_method_defined: its diagnostics, in order, are the result *)",
+            "(* assert_new_method_defined (its diagnostics, in order, are the result); ReplyOn::new, ReplyOn::excludes (parser/attributes/msg.rs) *)",
             "Definition check_fns : program :=", prog(checkfns)]),
         "GenImpGenerics.v": gen_file("which type parameters and bounds a message type carries (parser/check_generics.rs, utils.rs)", [
             "(* CheckGenerics::{new, used, used_unused, visit_path}, filter_wheres, as_where_clause, emit_bracketed_generics *)",
